@@ -19,6 +19,8 @@ func stringify(v *Val, inProcess util.PtrSet) string {
 			return fmt.Sprintf("recursive-val %s@%p", v.Type, v)
 		} else {
 			inProcess.Add(v)
+			// 只标记处理中的值: 同一个值从两条路径到达 (共享, 非递归) 不是递归值
+			defer inProcess.Remove(v)
 		}
 	}
 
